@@ -139,6 +139,7 @@ package gmars
 //@ ghost reportSim.touchW (Array Int Int)
 //@ ghost reportSim.ttermCount Int
 //@ ghost reportSim.wtermCount Int
+//@ ghost reportSim.popW (Array Int Int)
 //@ pure isTouch(t int) = t == WarriorWrite || t == WarriorIncrement || t == WarriorDecrement
 //@ pure noTouch(s *reportSim) = s.touched == old(s.touched) && s.touchW == old(s.touchW)
 
@@ -152,6 +153,7 @@ package gmars
 //@   ensures !isTouch(report.Type) && report.Type != WarriorTaskPop ==> noTouch(s)
 //@   ensures s.ttermCount == old(s.ttermCount) + ite(report.Type == WarriorTaskTerminate, 1, 0)
 //@   ensures s.wtermCount == old(s.wtermCount) + ite(report.Type == WarriorTerminate, 1, 0)
+//@   ensures s.popW == ite(report.Type == WarriorTaskPop, old(s.popW)[report.WarriorIndex := old(s.popW)[report.WarriorIndex] + 1], old(s.popW))
 
 // ---------------------------------------------------------------------------
 // simops.go
@@ -161,6 +163,7 @@ package gmars
 //@   requires hPre(s, w, WAB) && PC < s.m
 //@   modifies s.mem[WAB], w.pq.queue[w.pq.end], w.pq.end, w.pq.length, ghost s.*
 //@   ensures [C15] noTouch(s) && s.wtermCount == old(s.wtermCount) && s.ttermCount == old(s.ttermCount) + 0
+//@   ensures [C02] s.popW == old(s.popW)
 //@   ensures [C04] qStep(w.pq, s.m)
 //@   ensures qPushed(w.pq, (PC + 1) % s.m)
 //@   ensures [C04] wfI(IRA, s.m) && wfI(old(s.mem[WAB]), s.m) ==> wfI(s.mem[WAB], s.m)
@@ -171,6 +174,7 @@ package gmars
 //@   requires hPre(s, w, WAB) && PC < s.m
 //@   modifies s.mem[WAB], w.pq.queue[w.pq.end], w.pq.end, w.pq.length, ghost s.*
 //@   ensures [C15] noTouch(s) && s.wtermCount == old(s.wtermCount) && s.ttermCount == old(s.ttermCount) + 0
+//@   ensures [C02] s.popW == old(s.popW)
 //@   ensures [C04] qStep(w.pq, s.m)
 //@   ensures qPushed(w.pq, (PC + 1) % s.m)
 //@   ensures [C04] wfI(old(s.mem[WAB]), s.m) ==> wfI(s.mem[WAB], s.m)
@@ -181,6 +185,7 @@ package gmars
 //@   requires hPre(s, w, WAB) && PC < s.m
 //@   modifies s.mem[WAB], w.pq.queue[w.pq.end], w.pq.end, w.pq.length, ghost s.*
 //@   ensures [C15] noTouch(s) && s.wtermCount == old(s.wtermCount) && s.ttermCount == old(s.ttermCount) + 0
+//@   ensures [C02] s.popW == old(s.popW)
 //@   ensures [C04] qStep(w.pq, s.m)
 //@   ensures qPushed(w.pq, (PC + 1) % s.m)
 //@   ensures [C04] wfI(old(s.mem[WAB]), s.m) ==> wfI(s.mem[WAB], s.m)
@@ -191,6 +196,7 @@ package gmars
 //@   requires hPre(s, w, WAB) && PC < s.m
 //@   modifies s.mem[WAB], w.pq.queue[w.pq.end], w.pq.end, w.pq.length, ghost s.*
 //@   ensures [C15] noTouch(s) && s.wtermCount == old(s.wtermCount) && s.ttermCount == old(s.ttermCount) + 0
+//@   ensures [C02] s.popW == old(s.popW)
 //@   ensures [C04] qStep(w.pq, s.m)
 //@   ensures qPushed(w.pq, (PC + 1) % s.m)
 //@   ensures [C04] wfI(old(s.mem[WAB]), s.m) ==> wfI(s.mem[WAB], s.m)
@@ -201,6 +207,7 @@ package gmars
 //@   requires hPre(s, w, WAB) && PC < s.m
 //@   modifies s.mem[WAB], w.pq.queue[w.pq.end], w.pq.end, w.pq.length, ghost s.*
 //@   ensures [C15] noTouch(s) && s.wtermCount == old(s.wtermCount) && s.ttermCount == old(s.ttermCount) + ite(IR.OpMode <= 6 && divDies(IR.OpMode, IRA), 1, 0)
+//@   ensures [C02] s.popW == old(s.popW)
 //@   ensures [C04] qStep(w.pq, s.m)
 //@   ensures [C04] pqInv(w.pq) && qFrame(w.pq) && (wfI(IRB, s.m) && wfI(IRA, s.m) && wfI(old(s.mem[WAB]), s.m) ==> wfI(s.mem[WAB], s.m))
 //@   ensures [C01] IR.OpMode <= 6 ==> s.mem[WAB] == divSpec(DIV, IR.OpMode, old(s.mem[WAB]), IRA, IRB, s.m)
@@ -212,6 +219,7 @@ package gmars
 //@   requires hPre(s, w, WAB) && PC < s.m
 //@   modifies s.mem[WAB], w.pq.queue[w.pq.end], w.pq.end, w.pq.length, ghost s.*
 //@   ensures [C15] noTouch(s) && s.wtermCount == old(s.wtermCount) && s.ttermCount == old(s.ttermCount) + ite(IR.OpMode <= 6 && divDies(IR.OpMode, IRA), 1, 0)
+//@   ensures [C02] s.popW == old(s.popW)
 //@   ensures [C04] qStep(w.pq, s.m)
 //@   ensures [C04] pqInv(w.pq) && qFrame(w.pq) && (wfI(IRB, s.m) && wfI(IRA, s.m) && wfI(old(s.mem[WAB]), s.m) ==> wfI(s.mem[WAB], s.m))
 //@   ensures [C01] IR.OpMode <= 6 ==> s.mem[WAB] == divSpec(MOD, IR.OpMode, old(s.mem[WAB]), IRA, IRB, s.m)
@@ -223,6 +231,7 @@ package gmars
 //@   requires memOK(s) && wOK(s, w) && PC < s.m && RAB < s.m
 //@   modifies w.pq.queue[w.pq.end], w.pq.end, w.pq.length, ghost s.*
 //@   ensures [C15] noTouch(s) && s.wtermCount == old(s.wtermCount) && s.ttermCount == old(s.ttermCount) + 0
+//@   ensures [C02] s.popW == old(s.popW)
 //@   ensures [C04] qStep(w.pq, s.m)
 //@   ensures [C01] IR.OpMode <= 6 ==> qPushed(w.pq, ite(allZero(IR.OpMode, IRB), RAB, (PC + 1) % s.m))
 //@   ensures IR.OpMode > 6 ==> qSame(w.pq)
@@ -232,6 +241,7 @@ package gmars
 //@   requires memOK(s) && wOK(s, w) && PC < s.m && RAB < s.m
 //@   modifies w.pq.queue[w.pq.end], w.pq.end, w.pq.length, ghost s.*
 //@   ensures [C15] noTouch(s) && s.wtermCount == old(s.wtermCount) && s.ttermCount == old(s.ttermCount) + 0
+//@   ensures [C02] s.popW == old(s.popW)
 //@   ensures [C04] qStep(w.pq, s.m)
 //@   ensures [C04] pqInv(w.pq) && qFrame(w.pq)
 //@   ensures [C01] IR.OpMode <= 6 ==> qPushed(w.pq, ite(allZero(IR.OpMode, IRB), (PC + 1) % s.m, RAB))
@@ -242,6 +252,7 @@ package gmars
 //@   requires hPre(s, w, WAB) && PC < s.m && RAB < s.m
 //@   modifies s.mem[WAB], w.pq.queue[w.pq.end], w.pq.end, w.pq.length, ghost s.*
 //@   ensures [C15] noTouch(s) && s.wtermCount == old(s.wtermCount) && s.ttermCount == old(s.ttermCount) + 0
+//@   ensures [C02] s.popW == old(s.popW)
 //@   ensures [C04] qStep(w.pq, s.m)
 //@   ensures [C04] pqInv(w.pq) && qFrame(w.pq) && (wfI(old(s.mem[WAB]), s.m) ==> wfI(s.mem[WAB], s.m))
 //@   ensures [C01] IR.OpMode <= 6 && funcM(s) && wfI(old(s.mem[WAB]), s.m) ==> s.mem[WAB] == djnSpec(IR.OpMode, old(s.mem[WAB]), s.m)
@@ -253,6 +264,7 @@ package gmars
 //@   requires memOK(s) && wOK(s, w) && PC < s.m
 //@   modifies w.pq.queue[w.pq.end], w.pq.end, w.pq.length, ghost s.*
 //@   ensures [C15] noTouch(s) && s.wtermCount == old(s.wtermCount) && s.ttermCount == old(s.ttermCount) + 0
+//@   ensures [C02] s.popW == old(s.popW)
 //@   ensures [C15] w.pq.length == old(w.pq.length) + ite(old(w.pq.length) < w.pq.size, 1, 0)
 //@   ensures [C04] qStep(w.pq, s.m)
 //@   ensures [C01] IR.OpMode <= 6 && funcM(s) ==> qPushed(w.pq, ite(cmpAll(IR.OpMode, IRA, IRB), (PC + 2) % s.m, (PC + 1) % s.m))
@@ -263,6 +275,7 @@ package gmars
 //@   requires memOK(s) && wOK(s, w) && PC < s.m
 //@   modifies w.pq.queue[w.pq.end], w.pq.end, w.pq.length, ghost s.*
 //@   ensures [C15] noTouch(s) && s.wtermCount == old(s.wtermCount) && s.ttermCount == old(s.ttermCount) + 0
+//@   ensures [C02] s.popW == old(s.popW)
 //@   ensures [C15] w.pq.length == old(w.pq.length) + ite(old(w.pq.length) < w.pq.size, 1, 0)
 //@   ensures [C04] qStep(w.pq, s.m)
 //@   ensures [C01] IR.OpMode <= 6 && funcM(s) ==> qPushed(w.pq, ite(cmpAll(IR.OpMode, IRA, IRB), (PC + 1) % s.m, (PC + 2) % s.m))
@@ -273,6 +286,7 @@ package gmars
 //@   requires memOK(s) && wOK(s, w) && PC < s.m
 //@   modifies w.pq.queue[w.pq.end], w.pq.end, w.pq.length, ghost s.*
 //@   ensures [C15] noTouch(s) && s.wtermCount == old(s.wtermCount) && s.ttermCount == old(s.ttermCount) + 0
+//@   ensures [C02] s.popW == old(s.popW)
 //@   ensures [C15] w.pq.length == old(w.pq.length) + ite(old(w.pq.length) < w.pq.size, 1, 0)
 //@   ensures [C04] qStep(w.pq, s.m)
 //@   ensures [C01] IR.OpMode <= 6 && funcM(s) ==> qPushed(w.pq, ite(sltAll(IR.OpMode, IRA, IRB), (PC + 2) % s.m, (PC + 1) % s.m))
@@ -341,6 +355,7 @@ package gmars
 //@   split s.mem[PC].AMode in 0..7
 //@   split s.mem[PC].BMode in 0..7
 //@   requires [C15] forall a :: !s.touched[a]
+//@   requires [C15][C02] s.lastType == WarriorTaskPop && s.lastAddr == PC && s.lastW == w.index
 //@   modifies s.mem[*], w.pq.queue[*], w.pq.end, w.pq.length, ghost s.*
 // the ICWS'94 operand evaluation of the instruction at PC against the entry core c0
 //@   spec m = s.m
@@ -369,6 +384,7 @@ package gmars
 //@   ensures [C11] limitsOK(s) ==> (forall a :: 0 <= a && a < s.m && s.mem[a] != old(s.mem[a]) ==> cdist(a, PC, s.m) <= s.writeLimit / 2)
 //@   ensures [C11] funcOK(s) ==> near(rpa, R, m) && near(rpb, R, m) && near(wpb, W, m)
 //@   ensures [C15] forall a :: 0 <= a && a < s.m && s.mem[a] != old(s.mem[a]) ==> s.touched[a] && s.touchW[a] == w.index
+//@   ensures [C02] s.popW == old(s.popW)
 //@   ensures [C15] s.wtermCount == old(s.wtermCount) && s.ttermCount == old(s.ttermCount) + ite(w.pq.length == old(w.pq.length), 1, 0)
 // The proof is cut after operand evaluation: phase 1 (64 addressing-mode cases) establishes
 // the operand facts below, phase 2 (17 opcode cases) derives the postconditions from them
@@ -380,6 +396,7 @@ package gmars
 //@   assert [C11] limitsOK(s) ==> near(WPB, s.writeLimit, s.m) && (forall a :: 0 <= a && a < s.m && s.mem[a] != old(s.mem[a]) ==> cdist(a, PC, s.m) <= s.writeLimit / 2)
 //@   assert [C11] funcOK(s) ==> near(rpa, R, m) && near(rpb, R, m) && near(wpb, W, m)
 //@   assert [C15] (forall a :: 0 <= a && a < s.m && s.mem[a] != old(s.mem[a]) ==> s.touched[a] && s.touchW[a] == w.index) && s.wtermCount == old(s.wtermCount) && s.ttermCount == old(s.ttermCount)
+//@   assert [C02] s.popW == old(s.popW)
 //@   assert [C01] funcOK(s) ==> IRA == ira && IRB == irb && WPB == wpb && RPA == rpa && RPB == rpb && rpa < m && wpb < m && rpb < m && (forall a :: 0 <= a && a < m ==> s.mem[a] == cB2[a])
 
 // ---------------------------------------------------------------------------
@@ -540,6 +557,7 @@ package gmars
 //@   ensures [C13] !(0 <= wi && wi < s.warriorCount) ==> result != nil && memSame(s)
 //@   ensures [C13] 0 <= wi && wi < s.warriorCount && old(s.warriors[wi].state) == WarriorAlive ==> result != nil && memSame(s)
 //@   ensures [C13] result == nil ==> s.warriors[wi].state == WarriorAlive && s.warriors[wi].pq.length == 1
+//@   ensures [C02] result == nil ==> s.warriors[wi].pq.size == s.maxProcs
 //@   ensures [C13] result == nil && startOffset + s.warriors[wi].data.Start < 18446744073709551616 ==> qAt(s.warriors[wi].pq, 0) == (startOffset + s.warriors[wi].data.Start) % s.m
 //@   loop 1
 //@     invariant i <= len(w.data.Code) && memWf(s)
@@ -619,10 +637,15 @@ package gmars
 //@   ensures [C02] !old(cycleGuard(s)) ==> (s.cycleCount == old(s.cycleCount) + 1 && result == s.warriorLivingCount)
 //@      || (s.cycleCount == old(s.cycleCount) && s.warriorCount > 1 && result == 1 && s.warriorLivingCount == 1)
 //@   ensures [C15] s.wtermCount - old(s.wtermCount) == old(s.warriorLivingCount) - s.warriorLivingCount
+// every warrior that was alive at the start of a completed cycle ran exactly one task, the others none
+//@   ensures [C02] s.cycleCount == old(s.cycleCount) + 1 ==> (forall j :: 0 <= j && j < s.warriorCount ==> s.popW[j] == old(s.popW[j]) + ite(old(s.warriors[j].state) == WarriorAlive, 1, 0))
+//@   ensures [C02] forall j :: 0 <= j && j < s.warriorCount ==> s.popW[j] <= old(s.popW[j]) + ite(old(s.warriors[j].state) == WarriorAlive, 1, 0) && s.popW[j] >= old(s.popW[j])
 //@   loop 1
 //@     invariant simInv(s) && 0 <= i && i <= s.warriorCount
 //@     invariant s.warriorLivingCount <= old(s.warriorLivingCount) && s.warriorLivingCount >= old(s.warriorLivingCount) - i && old(s.warriorLivingCount) >= 1
 //@     invariant [C15] s.wtermCount - old(s.wtermCount) == old(s.warriorLivingCount) - s.warriorLivingCount
+//@     invariant [C02] forall j :: 0 <= j && j < i ==> s.popW[j] == old(s.popW[j]) + ite(old(s.warriors[j].state) == WarriorAlive, 1, 0)
+//@     invariant [C02] forall j :: i <= j && j < s.warriorCount ==> s.popW[j] == old(s.popW[j]) && s.warriors[j].state == old(s.warriors[j].state)
 //@     decreases s.warriorCount - i
 
 //@ func (*reportSim).Run
